@@ -770,7 +770,10 @@ class Cli:
         code, out, err, exc = self.run(argv, op_index)
         if code is None:
             return
-        if self.grammar_file in self.files_damaged:
+        if any(a in self.files_damaged for a in argv):
+            # another specification file of this command (grammar or constraint file) was
+            # hit by a storage fault: a missing file is a usage error (exit 2) before the
+            # malformed one is even read; not judged by this clause
             return
         self.bump("malformed_" + which)
         if code != 65:
